@@ -394,3 +394,35 @@ mutant("M66b-shape-from-first-input", ["C12"], "META-1", (OPS, "    shape = tupl
 mutant("M66c-corearray-shape-from-plan", ["C12"], "META-1", ("cubed/core/array.py", "        self._shape = zarray.shape\n", "        self._shape = getattr(plan, 'shape', None) or zarray.shape\n        self._shape = tuple(self._shape)\n"))
 benign("B-gensym-format-first", ["C10", "C20"], ("cubed/core/array.py", "    global sym_counter\n    sym_counter += 1\n    return f\"{name}-{sym_counter:03}\"", "    global sym_counter\n    n = sym_counter + 1\n    sym_counter += 1\n    return f\"{name}-{sym_counter:03}\""))
 benign("B-fresh-op-field-set", ["C10", "C02"], (PBW, "    return PrimitiveOperation(\n        pipeline=fused_pipeline,", "    _tmp = PrimitiveOperation(\n        pipeline=fused_pipeline,\n        source_array_names=source_array_names,\n        target_array=target_array,\n        projected_mem=projected_mem,\n        allowed_mem=allowed_mem,\n        reserved_mem=reserved_mem,\n        num_tasks=num_tasks,\n    )\n    _tmp.fusable_with_predecessors = True\n    return PrimitiveOperation(\n        pipeline=fused_pipeline,"))
+
+# ---------------------------------------------------------------- C18 / C19
+SPECPY = "cubed/spec.py"
+UTILSPY = "cubed/utils.py"
+SEARCH = "cubed/array_api/searching_functions.py"
+mutant("M77-merge-without-check", ["C18"], "SPEC-CHECK-1", (PLAN, "    check_array_specs(arrays)\n    dags = [x._plan.dag for x in arrays if hasattr(x, \"_plan\")]", "    dags = [x._plan.dag for x in arrays if hasattr(x, \"_plan\")]"))
+mutant("M77b-check-first-only", ["C18"], "SPEC-CHECK-1", (PLAN, "    check_array_specs(arrays)\n    dags = [x._plan.dag for x in arrays if hasattr(x, \"_plan\")]", "    check_array_specs(arrays[:1])\n    dags = [x._plan.dag for x in arrays if hasattr(x, \"_plan\")]"))
+mutant("M77c-second-merge-point", ["C18"], "SPEC-CHECK-1", (OPS, "    arrays = []\n    for source, target, region in zip(sources, targets, regions_list):\n        array = _store_array(source, target, region=region)\n        arrays.append(array)\n    if compute:", "    arrays = []\n    for source, target, region in zip(sources, targets, regions_list):\n        array = _store_array(source, target, region=region)\n        arrays.append(array)\n    import networkx as nx\n    _merged = nx.compose_all([a._plan.dag for a in arrays])\n    if compute:"))
+mutant("M77d-plan-new-drops-sources", ["C18", "C07"], "SPEC-CHECK-1", (PLAN, "            dag = arrays_to_dag(*source_arrays)\n", "            dag = arrays_to_dag(*source_arrays[:1])\n"))
+mutant("M78-compare-allowed-mem-only", ["C18"], "SPEC-CHECK-2", (ARRAY, "    if not all(s == specs[0] for s in specs):", "    if not all(s.allowed_mem == specs[0].allowed_mem for s in specs):"))
+mutant("M78b-check-warns-only", ["C18"], "SPEC-CHECK-2", (ARRAY, "        raise ValueError(\n            f\"Arrays must have same spec in single computation. Specs: {specs}\"\n        )", "        import warnings\n        warnings.warn(\n            f\"Arrays must have same spec in single computation. Specs: {specs}\"\n        )"))
+mutant("M78c-any-instead-of-all", ["C18"], "SPEC-CHECK-2", (ARRAY, "    if not all(s == specs[0] for s in specs):", "    if not any(s == specs[0] for s in specs):"))
+mutant("M79-eq-drops-reserved-mem", ["C18"], "SPEC-EQ-1", (SPECPY, "                and self.reserved_mem == other.reserved_mem\n", ""))
+mutant("M79b-eq-drops-executor", ["C18"], "SPEC-EQ-1", (SPECPY, "                and self.executor == other.executor\n", ""))
+mutant("M80-budget-doubled", ["C18"], "SPEC-BUDGET-1", (OPS, "        allowed_mem=spec.allowed_mem,\n        reserved_mem=spec.reserved_mem,\n        extra_projected_mem=extra_projected_mem,\n        target_store=target_store,", "        allowed_mem=spec.allowed_mem * 2,\n        reserved_mem=spec.reserved_mem,\n        extra_projected_mem=extra_projected_mem,\n        target_store=target_store,"))
+mutant("M80b-budget-from-first-array", ["C18"], "SPEC-BUDGET-1", (OPS, "        allowed_mem=spec.allowed_mem,\n        reserved_mem=spec.reserved_mem,\n        extra_projected_mem=extra_projected_mem,\n        buffer_copies=buffer_copies,", "        allowed_mem=arrays[0].spec.allowed_mem,\n        reserved_mem=spec.reserved_mem,\n        extra_projected_mem=extra_projected_mem,\n        buffer_copies=buffer_copies,"))
+mutant("M81a-base-1024", ["C18"], "BYTES-1", (UTILSPY, "unit_factor = 1000 ** units[unit]", "unit_factor = 1024 ** units[unit]"))
+mutant("M81b-bad-string-falls-through", ["C18"], "BYTES-1", (UTILSPY, "        else:\n            raise ValueError(\n                f\"Invalid value: {size}. Expected the string to be a numeric value ending with an SI prefix.\"\n            )", "        else:\n            unit_factor = 1.0\n            value = \"0\""))
+mutant("M81c-unit-table-shifted", ["C18"], "BYTES-1", (UTILSPY, "{\"kB\": 1, \"MB\": 2, \"GB\": 3, \"TB\": 4, \"PB\": 5}", "{\"kB\": 1, \"MB\": 2, \"GB\": 3, \"TB\": 3, \"PB\": 5}"))
+mutant("M81d-negative-accepted", ["C18"], "BYTES-1", (UTILSPY, "    if size >= 0:\n        return size\n    else:\n        raise ValueError(f\"Invalid value: {size}. Must be a positive value\")", "    return size"))
+mutant("M81e-truncate-float", ["C18"], "BYTES-1", (UTILSPY, "        else:\n            raise ValueError(\n                f\"Invalid value: {size}. Can't have a non-integer number of bytes\"\n            )", "        else:\n            size = int(size)"))
+mutant("M81f-spec-bypasses-parser", ["C18"], "BYTES-1", (SPECPY, "            self._allowed_mem = convert_to_bytes(allowed_mem)", "            self._allowed_mem = int(allowed_mem)"))
+mutant("M-F2-searchsorted-no-spec", ["C19"], "SPEC-THREAD-1", (SEARCH, "    x1_offsets = asarray(x1_chunk_offsets, chunks=1, spec=x1.spec)", "    x1_offsets = asarray(x1_chunk_offsets, chunks=1)"))
+mutant("M82-broadcast-to-no-spec", ["C19"], "SPEC-THREAD-1", (MANIP, "empty(shape, dtype=nxp.int8, chunks=chunks, spec=x.spec)", "empty(shape, dtype=nxp.int8, chunks=chunks)"))
+mutant("M83-tri-mask-no-spec", ["C19"], "SPEC-THREAD-1", (CREATION, "        arange(-k, M - k, chunks=chunks[1][0], spec=spec),", "        arange(-k, M - k, chunks=chunks[1][0]),"))
+mutant("M83b-promote-scalar-default-spec", ["C19"], "SPEC-THREAD-1", ("cubed/array_api/array_object.py", "return asarray(scalar, dtype=self.dtype, spec=self.spec)", "return asarray(scalar, dtype=self.dtype)"))
+mutant("M83c-offsets-array-spec-none", ["C19"], "SPEC-THREAD-1", (OPS, "        offsets = offsets_virtual_array(numblocks, arg0.spec)", "        offsets = offsets_virtual_array(numblocks, None)"))
+mutant("M84-second-resolution-point", ["C19"], "SPEC-RESOLVE-1", (ARRAY, "        self.spec = spec or spec_from_config(config)", "        self.spec = spec or Spec()"))
+mutant("M84b-work-dir-branches-builder", ["C19"], "SPEC-NEUTRAL-1", (OPS, "    name = gensym()\n    spec = check_array_specs(arrays)\n    buffer_copies = get_buffer_copies(spec)\n    if target_store is None:", "    name = gensym()\n    spec = check_array_specs(arrays)\n    if spec.work_dir is not None and spec.work_dir.startswith(\"s3://\") and len(arrays) > 4:\n        raise ValueError(\"too many inputs for cloud storage\")\n    buffer_copies = get_buffer_copies(spec)\n    if target_store is None:"))
+benign("B-new-creation-forwarding-spec", ["C19", "C16"], (CREATION, "def zeros(shape, *, dtype=None, device=None, chunks=\"auto\", spec=None) -> \"Array\":", "def twos(shape, *, dtype=None, device=None, chunks=\"auto\", spec=None) -> \"Array\":\n    return full(shape, 2, dtype=dtype, device=device, chunks=chunks, spec=spec)\n\n\ndef zeros(shape, *, dtype=None, device=None, chunks=\"auto\", spec=None) -> \"Array\":"))
+benign("B-no-lru-cache-spec-from-config", ["C19", "C18"], (SPECPY, "@lru_cache  # ensure arrays have the same Spec object for a given config\n", ""))
+benign("B-eq-reordered", ["C18"], (SPECPY, "                self.work_dir == other.work_dir\n                and self.intermediate_store == other.intermediate_store", "                self.intermediate_store == other.intermediate_store\n                and self.work_dir == other.work_dir"))
